@@ -29,7 +29,7 @@ TupV(l)   == [t |-> "tuple", tu |-> l]
 NullV     == [t |-> "null"]
 
 (* strings of the universe, listed in bytewise (UTF-8) order; the harness re-checks that order with bytes.Compare *)
-Strs == <<"", "A", "B", "a", "aa", "ab", "b", "é">>
+Strs == <<"", "A", "B", "a", "aa", "ab", "b", "p", "q", "u", "v", "x", "y", "é">>
 StrRank(s) == CHOOSE i \in 1..Len(Strs) : Strs[i] = s
 
 Scalars == {NullV,
